@@ -172,6 +172,17 @@ def Consistent (c : Cert) : Prop :=
   (hasNameConstraints c.f = true → hasOid oidNC c.extensions) ∧
   ((!c.f.crlDP.isEmpty) = true → hasOid oidCRLDP c.extensions)
 
+/-- When a plain renewal leaves the subject key identifier alone: the presented certificate has
+    the extension (it is then copied and suppresses the generated one), or - with the C09-SKI
+    repair - it has none, its parsed field is empty and it is not a CA certificate (for which
+    crypto/x509 would generate one). -/
+def RenewOK (v : Variant) (old : Cert) : Prop :=
+  hasOid oidSKI old.extensions = true ∨
+    (v.keepNoSKI = true ∧ old.subjectKeyId = [] ∧ old.f.isCA = false)
+
+/-- parse consistency for the subject key identifier: no extension, no parsed identifier -/
+def SKIParsed (c : Cert) : Prop := hasOid oidSKI c.extensions = false → c.subjectKeyId = []
+
 theorem hasOid_iff (o : Oid) (es : List Ext) : hasOid o es = true ↔ ∃ e ∈ es, e.oid = o := by
   simp [hasOid]
 
@@ -214,9 +225,9 @@ theorem dropOid_slot_self (extra : List Ext) (c : Bool) (e : Ext) : dropOid e.oi
   unfold slot dropOid; split <;> simp
 
 /-- generated part on renewal: only the authority key identifier can be generated -/
-theorem generated_renew (enc : Enc) (old : Cert) (pk : Option Str) (aki ski : Str)
-    (hc : Consistent old) (hs : pk = none → hasOid oidSKI old.extensions = true) :
-    generated enc (renewTemplate old pk) aki ski =
+theorem generated_renew (v : Variant) (enc : Enc) (old : Cert) (pk : Option Str) (aki ski : Str)
+    (hc : Consistent old) (hs : pk = none → hasOid oidSKI old.extensions = true ∨ ski = []) :
+    generated enc (renewTemplate v old pk) aki ski =
       slot (copyExtensions pk.isSome old.extensions) (!ski.isEmpty && pk.isSome) ⟨oidSKI, false, enc.ski ski⟩ ++
       slot (copyExtensions pk.isSome old.extensions) (!aki.isEmpty) ⟨oidAKI, false, enc.aki aki⟩ := by
   obtain ⟨h1, h2, h3, h4, h5, h6, h7, h8⟩ := hc
@@ -236,16 +247,21 @@ theorem generated_renew (enc : Enc) (old : Cert) (pk : Option Str) (aki ski : St
   cases pk with
   | some k => simp
   | none =>
-    have : hasOid oidSKI (copyExtensions false old.extensions) = true := by
-      rw [hasOid_copy false oidSKI _ (by decide) (by simp)]; exact hs rfl
-    simp [slot, this]
+    rcases hs rfl with hh | hh
+    · have : hasOid oidSKI (copyExtensions false old.extensions) = true := by
+        rw [hasOid_copy false oidSKI _ (by decide) (by simp)]; exact hh
+      simp [slot, this]
+    · simp [slot, hh]
 
 
 theorem renew_issued (v : Variant) (env : Env) (i : GateIn) (old new : Cert) (pk : Option Str)
     (h : renew v env i old pk = .val (.issued new)) :
     decide v i = .val .allow ∧
-      caSign env (renewTemplate old pk) ((old.notAfter - old.notBefore) - env.backdate) = .ok new := by
+      caSign env (renewTemplate v old pk) ((old.notAfter - old.notBefore) - env.backdate) = .ok new := by
   unfold renew at h
+  by_cases hkc : keyRefused v env pk = true
+  · rw [if_pos hkc] at h; cases h
+  rw [if_neg hkc] at h
   cases hd : decide v i with
   | crash => simp [hd] at h
   | val d =>
@@ -253,25 +269,34 @@ theorem renew_issued (v : Variant) (env : Env) (i : GateIn) (old new : Cert) (pk
     | refuse r => simp [hd] at h
     | allow =>
       simp only [hd] at h
-      cases hs : caSign env (renewTemplate old pk) ((old.notAfter - old.notBefore) - env.backdate) with
+      cases hs : caSign env (renewTemplate v old pk) ((old.notAfter - old.notBefore) - env.backdate) with
       | error e => simp [hs] at h
       | ok c => simp [hs] at h; subst h; exact ⟨rfl, rfl⟩
 
-/-- the subject key identifier `x509util.CreateCertificate` puts into the template -/
-def newSKI (env : Env) (old : Cert) (pk : Option Str) : Str :=
-  env.skiOf (renewTemplate old pk).publicKey
+/-- the subject key identifier handed to the extension assembly: what the template carries, else
+    what `x509util.CreateCertificate` generates, else (empty, CA) crypto/x509's own fallback -/
+def newSKI (v : Variant) (env : Env) (old : Cert) (pk : Option Str) : Str :=
+  let t := renewTemplate v old pk
+  let ski0 := match t.subjectKeyId with | some k => k | none => env.skiOf t.publicKey
+  if ski0.isEmpty && t.f.isCA then env.sha1Of t.publicKey else ski0
+
+theorem newSKI_empty (v : Variant) (env : Env) (old : Cert)
+    (h : v.keepNoSKI = true ∧ old.subjectKeyId = [] ∧ old.f.isCA = false) :
+    newSKI v env old none = [] := by
+  obtain ⟨h1, h2, h3⟩ := h
+  simp [newSKI, renewTemplate, h1, h2, h3]
 
 /-- Shape of the issued certificate: copied fields, chosen key, and the extension list as
     (generated subject key id, on rekey) ++ (generated authority key id) ++ copied extensions. -/
 theorem renew_shape (v : Variant) (env : Env) (i : GateIn) (old new : Cert) (pk : Option Str)
-    (hc : Consistent old) (hs : pk = none → hasOid oidSKI old.extensions = true)
+    (hc : Consistent old) (hs : pk = none → RenewOK v old)
     (h : renew v env i old pk = .val (.issued new)) :
     new.f = old.f ∧
     new.publicKey = pk.getD old.publicKey ∧
     new.notAfter - new.notBefore = old.notAfter - old.notBefore ∧
     new.extensions =
-      slot (copyExtensions pk.isSome old.extensions) (!(newSKI env old pk).isEmpty && pk.isSome)
-        ⟨oidSKI, false, env.enc.ski (newSKI env old pk)⟩ ++
+      slot (copyExtensions pk.isSome old.extensions) (!(newSKI v env old pk).isEmpty && pk.isSome)
+        ⟨oidSKI, false, env.enc.ski (newSKI v env old pk)⟩ ++
       slot (copyExtensions pk.isSome old.extensions) (!env.parentSKI.isEmpty)
         ⟨oidAKI, false, env.enc.aki env.parentSKI⟩ ++
       copyExtensions pk.isSome old.extensions := by
@@ -282,10 +307,16 @@ theorem renew_shape (v : Variant) (env : Env) (i : GateIn) (old new : Cert) (pk 
   · simp only [Except.ok.injEq] at hs'
     subst hs'
     refine ⟨rfl, rfl, by simp; omega, ?_⟩
-    simp only [assemble, renewTemplate]
-    have := generated_renew env.enc old pk env.parentSKI (newSKI env old pk) hc hs
-    simp only [renewTemplate, newSKI] at this ⊢
+    have hs2 : pk = none → hasOid oidSKI old.extensions = true ∨ newSKI v env old pk = [] := by
+      intro hp; subst hp
+      rcases hs rfl with hh | hh
+      · exact .inl hh
+      · exact .inr (newSKI_empty v env old hh)
+    have := generated_renew v env.enc old pk env.parentSKI (newSKI v env old pk) hc hs2
+    simp only [assemble]
+    show generated env.enc (renewTemplate v old pk) env.parentSKI (newSKI v env old pk) ++ _ = _
     rw [this]
+    rfl
 
 theorem dropOid_append (o : Oid) (a b : List Ext) : dropOid o (a ++ b) = dropOid o a ++ dropOid o b := by
   simp [dropOid]
@@ -294,9 +325,11 @@ theorem dropOid_slot_other (o : Oid) (extra : List Ext) (c : Bool) (e : Ext) (h 
     dropOid o (slot extra c e) = [] := by
   subst h; exact dropOid_slot_self extra c e
 
-/-- **renew_fidelity** -/
+/-- **renew_fidelity**: for every variant, environment, gate input and presented certificate
+    that is consistent and `RenewOK` (has a subject key identifier extension; with the C09-SKI
+    repair also: has none, is not a CA). -/
 theorem renew_fidelity (v : Variant) (env : Env) (i : GateIn) (old new : Cert)
-    (hc : Consistent old) (hs : hasOid oidSKI old.extensions = true)
+    (hc : Consistent old) (hs : RenewOK v old)
     (h : renew v env i old none = .val (.issued new)) :
     new.f = old.f ∧ new.publicKey = old.publicKey ∧
     new.notAfter - new.notBefore = old.notAfter - old.notBefore ∧
@@ -330,11 +363,12 @@ theorem rekey_fidelity (v : Variant) (env : Env) (i : GateIn) (old new : Cert) (
     simp only [Option.isSome_some]
     have hno : hasOid oidSKI (copyExtensions true old.extensions) = false := by
       simp [hasOid, copyExtensions]
-    have hski : newSKI env old (some k) = env.skiOf k := rfl
     have : (env.skiOf k).isEmpty = false := by
       cases hh : env.skiOf k with
       | nil => exact absurd hh hne
       | cons _ _ => rfl
+    have hski : newSKI v env old (some k) = env.skiOf k := by
+      simp [newSKI, renewTemplate, this]
     simp [slot, hno, hski, this, extOf]
 
 
@@ -366,7 +400,7 @@ theorem mem_slot (extra : List Ext) (c : Bool) (e x : Ext) : x ∈ slot extra c 
 /-- **only_these_differ**: extension by extension, nothing but the authority key identifier (and
     on rekey the subject key identifier) differs; nothing else is new; nothing else is lost. -/
 theorem only_these_differ (v : Variant) (env : Env) (i : GateIn) (old new : Cert) (pk : Option Str)
-    (hc : Consistent old) (hs : pk = none → hasOid oidSKI old.extensions = true)
+    (hc : Consistent old) (hs : pk = none → RenewOK v old)
     (h : renew v env i old pk = .val (.issued new)) :
     (∀ o, o ≠ oidAKI → (pk.isSome = true → o ≠ oidSKI) →
         extOf o new.extensions = extOf o old.extensions) ∧
@@ -428,7 +462,7 @@ theorem slot_append_nodup (extra L : List Ext) (c : Bool) (e : Ext) (hL : (oids 
 /-- The result never carries two extensions with the same OID (Go's parser rejects such a
     certificate), provided the presented certificate did not. -/
 theorem renew_nodup (v : Variant) (env : Env) (i : GateIn) (old new : Cert) (pk : Option Str)
-    (hc : Consistent old) (hs : pk = none → hasOid oidSKI old.extensions = true)
+    (hc : Consistent old) (hs : pk = none → RenewOK v old)
     (hn : (oids old.extensions).Nodup)
     (h : renew v env i old pk = .val (.issued new)) : (oids new.extensions).Nodup := by
   obtain ⟨-, -, -, he⟩ := renew_shape v env i old new pk hc hs h
@@ -664,6 +698,118 @@ theorem gates_api (v : Variant) (hv : v.noNoopWhenDbNames = true) (env : Env) (i
       · exact .inl hex
       · subst ha; exact .inr ⟨d, .none, hf⟩
 
+/-! ## the handlers on the request as received -/
+
+theorem apiRenew_created (v : Variant) (env : Env) (i : GateIn) (old c : Cert) (pk : Option Str) (e : Entry)
+    (h : apiRenew v env i old pk e = .created c) : renew v env i old pk = .val (.issued c) := by
+  unfold apiRenew at h
+  have key : (match renew v env i old pk with
+      | .crash => ApiResult.crash
+      | .val (.refused r) => .refused r
+      | .val (.signError _) => .signError
+      | .val (.issued c) => .created c) = .created c → renew v env i old pk = .val (.issued c) := by
+    intro hh
+    cases hr : renew v env i old pk with
+    | crash => simp [hr] at hh
+    | val o =>
+      cases o with
+      | refused r => simp [hr] at hh
+      | signError er => simp [hr] at hh
+      | issued c' => simp [hr] at hh; rw [hh]
+  cases e with
+  | nothing => simp at h
+  | mtls => exact key h
+  | token a b c' d e' f =>
+    simp only at h
+    split at h
+    · cases h
+    · split at h
+      · exact key h
+      · cases h
+
+/-- **rekey_handler_pop**: `POST /1.0/rekey` answers 201 only to a request that came with a verified
+    TLS peer certificate and a CSR whose signature verifies (proof of possession), and the
+    certificate carries exactly the key of that CSR; the `Authorization` header plays no role. -/
+theorem rekey_handler_pop (v : Variant) (env : Env) (i : GateIn) (old c : Cert) (r : RekeyReq)
+    (h : handleRekey v env i old r = .created c) :
+    r.hasPeer = true ∧ r.bodyParses = true ∧ r.csrPresent = true ∧ r.csrSigOK = true ∧
+    c.publicKey = r.csrKey ∧ decide v i = .val .allow := by
+  unfold handleRekey at h
+  cases h1 : r.hasPeer <;> simp [h1] at h
+  cases h2 : r.bodyParses <;> simp [h2] at h
+  cases h3 : r.csrPresent <;> simp [h3] at h
+  cases h4 : r.csrSigOK <;> simp [h4] at h
+  have hr := apiRenew_created v env i old c (some r.csrKey) .mtls h
+  have hi := renew_issued v env i old c (some r.csrKey) hr
+  refine ⟨rfl, rfl, rfl, rfl, ?_, hi.1⟩
+  have hs' := hi.2
+  unfold caSign at hs'
+  split at hs'
+  · simp at hs'
+  · simp only [Except.ok.injEq] at hs'
+    subst hs'; rfl
+
+/-- `afterBearer` finds the text after the first `Bearer `, wherever it stands in the header -/
+theorem afterBearer_spec (h t : Str) : afterBearer h = some t → ∃ pre, h = pre ++ s "Bearer " ++ t := by
+  induction h with
+  | nil => intro hh; simp [afterBearer] at hh
+  | cons c cs ih =>
+    intro hh
+    unfold afterBearer at hh
+    split at hh
+    · rename_i hp
+      simp only [Option.some.injEq] at hh
+      refine ⟨[], ?_⟩
+      obtain ⟨r, hr⟩ := List.isPrefixOf_iff_prefix.1 hp
+      rw [← hh, ← hr]
+      show _ = s "Bearer " ++ List.drop 7 (s "Bearer " ++ r)
+      have : List.drop 7 (s "Bearer " ++ r) = r := by
+        have hl : (s "Bearer ").length = 7 := by decide
+        rw [← hl, List.drop_left]
+      rw [this]
+    · obtain ⟨pre, hpre⟩ := ih hh
+      exact ⟨c :: pre, by rw [hpre]; simp⟩
+
+/-- **renew_handler_source**: `POST /1.0/renew` answers 201 only when the certificate came from the
+    TLS peer, or from a bearer token that passed every check of `AuthorizeRenewToken`; in both cases
+    the gate allowed. A request with neither gets 400. -/
+theorem renew_handler_source (v : Variant) (env : Env) (i : GateIn) (old c : Cert) (r : RenewReq)
+    (tc : Str → Bool × Bool × Bool × Bool × Bool × Bool)
+    (h : handleRenew v env i old r tc = .created c) :
+    decide v i = .val .allow ∧
+    (r.hasPeer = true ∨
+      ∃ t, r.hasPeer = false ∧ afterBearer r.authorization = some t ∧
+        authorizeRenewToken i (.token (tc t).1 (tc t).2.1 (tc t).2.2.1 (tc t).2.2.2.1 (tc t).2.2.2.2.1 (tc t).2.2.2.2.2) = true) := by
+  unfold handleRenew getPeerCertificate at h
+  cases hp : r.hasPeer with
+  | true =>
+    simp only [hp, if_true] at h
+    exact ⟨(renew_issued v env i old c none (apiRenew_created _ _ _ _ _ _ _ h)).1, .inl rfl⟩
+  | false =>
+    simp only [hp, Bool.false_eq_true, if_false] at h
+    by_cases he : r.authorization.isEmpty = true
+    · simp [he] at h
+    · simp only [he] at h
+      cases ha : afterBearer r.authorization with
+      | none => simp [ha] at h
+      | some t =>
+        simp only [ha] at h
+        have hr := apiRenew_created _ _ _ _ _ _ _ h
+        refine ⟨(renew_issued v env i old c none hr).1, .inr ⟨t, rfl, rfl, ?_⟩⟩
+        unfold apiRenew at h
+        simp only [Option.isSome_none, Bool.false_eq_true, if_false] at h
+        split at h
+        · assumption
+        · cases h
+
+/-- The RA wrapping of a database record never changes the gate decision on /repo HEAD (it only
+    lifts the audience comparison of a renew token, which is not one of the property's gates). -/
+theorem ra_flag_irrelevant (rev : Revoked) (p : Stored) (ext : ExtLookup) (nyv exp : Bool) :
+    decide current ⟨rev, .found p true, ext, nyv, exp⟩ = decide current ⟨rev, .found p false, ext, nyv, exp⟩ := by
+  cases rev <;> rcases p with ⟨d, a, c⟩ | _ | _ <;> (try cases c) <;>
+    simp [decide, authorizeRenew, selectProvisioner, loadByCertificate, callAuthorizeRenew,
+      provAuthorizeRenew, defaultAuthorizeRenew, current, repaired]
+
 /-! # Part D — histories: any number of renewals -/
 
 /-- `c` was obtained from `c0` by zero or more successful renewals (same key), under arbitrary
@@ -673,18 +819,58 @@ inductive RenewedFrom (v : Variant) (c0 : Cert) : Cert → Prop where
   | step {c c' : Cert} (env : Env) (i : GateIn) :
       RenewedFrom v c0 c → renew v env i c none = .val (.issued c') → RenewedFrom v c0 c'
 
+/-- the remaining TBSCertificate components of an issued certificate -/
+theorem renew_tbs (v : Variant) (env : Env) (i : GateIn) (old new : Cert) (pk : Option Str)
+    (h : renew v env i old pk = .val (.issued new)) :
+    new.version = 3 ∧ new.serial = env.serial ∧ new.sigAlg = env.sigAlg ∧
+    new.issuer = env.issuerSubject ∧ new.notBefore = env.now - env.backdate ∧
+    new.notAfter = env.now + ((old.notAfter - old.notBefore) - env.backdate) ∧
+    new.subjectKeyId =
+      (match extOf oidSKI new.extensions with | some e => env.enc.skiDec e.value | none => []) := by
+  have hs' := (renew_issued v env i old new pk h).2
+  unfold caSign at hs'
+  split at hs'
+  · simp at hs'
+  · simp only [Except.ok.injEq] at hs'
+    subst hs'
+    exact ⟨rfl, rfl, rfl, rfl, rfl, rfl, rfl⟩
+
+theorem extOf_none_of_not_hasOid (o : Oid) (es : List Ext) (h : hasOid o es = false) :
+    extOf o es = none := by
+  unfold extOf hasOid at *
+  rw [List.find?_eq_none]
+  intro e he
+  have := List.any_eq_false.1 h e he
+  simpa using this
+
 theorem renew_preserves_wf (v : Variant) (env : Env) (i : GateIn) (old new : Cert)
-    (hc : Consistent old) (hs : hasOid oidSKI old.extensions = true)
+    (hc : Consistent old) (hs : RenewOK v old)
     (h : renew v env i old none = .val (.issued new)) :
-    Consistent new ∧ hasOid oidSKI new.extensions = true := by
+    Consistent new ∧ RenewOK v new := by
   obtain ⟨hf, -, -, -⟩ := renew_shape v env i old new none hc (fun _ => hs) h
-  obtain ⟨-, -, hkeep⟩ := only_these_differ v env i old new none hc (fun _ => hs) h
+  obtain ⟨-, hnew, hkeep⟩ := only_these_differ v env i old new none hc (fun _ => hs) h
   have keep : ∀ o, o ≠ oidAKI → hasOid o old.extensions = true → hasOid o new.extensions = true := by
     intro o ho hh
     obtain ⟨e, he, heo⟩ := (hasOid_iff _ _).1 hh
     exact (hasOid_iff _ _).2 ⟨e, hkeep e he (by rw [heo]; exact ho) (by simp), heo⟩
+  have hok : RenewOK v new := by
+    by_cases hh : hasOid oidSKI old.extensions = true
+    · exact .inl (keep _ (by decide) hh)
+    · rcases hs with hs | ⟨h1, h2, h3⟩
+      · exact absurd hs hh
+      · refine .inr ⟨h1, ?_, by rw [hf]; exact h3⟩
+        have hno : hasOid oidSKI new.extensions = false := by
+          rw [Bool.eq_false_iff]
+          intro hc'
+          obtain ⟨e, he, heo⟩ := (hasOid_iff _ _).1 hc'
+          rcases hnew e he with hin | haki | ⟨hp, -⟩
+          · exact hh ((hasOid_iff _ _).2 ⟨e, hin, heo⟩)
+          · rw [heo] at haki; exact absurd haki (by decide)
+          · simp at hp
+        have := (renew_tbs v env i old new none h).2.2.2.2.2.2
+        rw [this, extOf_none_of_not_hasOid _ _ hno]
   obtain ⟨h1, h2, h3, h4, h5, h6, h7, h8⟩ := hc
-  refine ⟨⟨?_, ?_, ?_, ?_, ?_, ?_, ?_, ?_⟩, keep _ (by decide) hs⟩ <;> rw [hf] <;> intro hh
+  refine ⟨⟨?_, ?_, ?_, ?_, ?_, ?_, ?_, ?_⟩, hok⟩ <;> rw [hf] <;> intro hh
   · exact keep _ (by decide) (h1 hh)
   · exact keep _ (by decide) (h2 hh)
   · exact keep _ (by decide) (h3 hh)
@@ -698,8 +884,8 @@ theorem renew_preserves_wf (v : Variant) (env : Env) (i : GateIn) (old new : Cer
     the first certificate in every copied field, in the key, in the validity length and in the
     extension list minus the authority key identifier. -/
 theorem renew_history (v : Variant) (c0 c : Cert) (hc : Consistent c0)
-    (hs : hasOid oidSKI c0.extensions = true) (h : RenewedFrom v c0 c) :
-    (Consistent c ∧ hasOid oidSKI c.extensions = true) ∧
+    (hs : RenewOK v c0) (h : RenewedFrom v c0 c) :
+    (Consistent c ∧ RenewOK v c) ∧
     c.f = c0.f ∧ c.publicKey = c0.publicKey ∧
     c.notAfter - c.notBefore = c0.notAfter - c0.notBefore ∧
     dropOid oidAKI c.extensions = dropOid oidAKI c0.extensions := by
@@ -710,6 +896,280 @@ theorem renew_history (v : Variant) (c0 c : Cert) (hc : Consistent c0)
     obtain ⟨f1, f2, f3, f4⟩ := renew_fidelity v env i _ _ ihc ihs hstep
     exact ⟨renew_preserves_wf v env i _ _ ihc ihs hstep, f1.trans i1, f2.trans i2, f3.trans i3, f4.trans i4⟩
 
+/-! ## /repo HEAD: fidelity for every certificate the CA can have issued -/
+
+/-- What holds of every certificate that came out of `x509.CreateCertificate` +
+    `x509.ParseCertificate`: field groups only from their extensions, no parsed subject key
+    identifier without the extension, and a CA certificate always has the extension (crypto/x509
+    generates one for `IsCA` templates that carry none). No assumption that a leaf has one. -/
+def WellFormed (c : Cert) : Prop :=
+  Consistent c ∧ SKIParsed c ∧ (c.f.isCA = true → hasOid oidSKI c.extensions = true)
+
+theorem renewOK_of_wellFormed (v : Variant) (hv : v.keepNoSKI = true) (c : Cert) (hw : WellFormed c) :
+    RenewOK v c := by
+  obtain ⟨-, hp, hca⟩ := hw
+  by_cases hh : hasOid oidSKI c.extensions = true
+  · exact .inl hh
+  · have hf : hasOid oidSKI c.extensions = false := by simpa using hh
+    refine .inr ⟨hv, hp hf, ?_⟩
+    cases hc : c.f.isCA with
+    | false => rfl
+    | true => exact absurd (hca hc) hh
+
+/-- **renew_fidelity_current**: on /repo HEAD, for *every* well-formed presented certificate -
+    with or without subject key identifier - every environment and every gate input, a renewed
+    certificate equals the presented one in every copied field, the key, the validity length and
+    the extension list minus the authority key identifier, as lists. -/
+theorem renew_fidelity_current (env : Env) (i : GateIn) (old new : Cert) (hw : WellFormed old)
+    (h : renew current env i old none = .val (.issued new)) :
+    new.f = old.f ∧ new.publicKey = old.publicKey ∧
+    new.notAfter - new.notBefore = old.notAfter - old.notBefore ∧
+    dropOid oidAKI new.extensions = dropOid oidAKI old.extensions :=
+  renew_fidelity current env i old new hw.1 (renewOK_of_wellFormed current rfl old hw) h
+
+/-- … and the result is again well-formed, so the statement iterates over any history -/
+theorem renew_history_current (c0 c : Cert) (hw : WellFormed c0) (h : RenewedFrom current c0 c) :
+    c.f = c0.f ∧ c.publicKey = c0.publicKey ∧
+    c.notAfter - c.notBefore = c0.notAfter - c0.notBefore ∧
+    dropOid oidAKI c.extensions = dropOid oidAKI c0.extensions :=
+  (renew_history current c0 c hw.1 (renewOK_of_wellFormed current rfl c0 hw) h).2
+
+/-- **only_these_differ_current** -/
+theorem only_these_differ_current (env : Env) (i : GateIn) (old new : Cert) (pk : Option Str)
+    (hw : WellFormed old) (h : renew current env i old pk = .val (.issued new)) :
+    (∀ o, o ≠ oidAKI → (pk.isSome = true → o ≠ oidSKI) →
+        extOf o new.extensions = extOf o old.extensions) ∧
+    (∀ e ∈ new.extensions, e ∈ old.extensions ∨ e.oid = oidAKI ∨ (pk.isSome = true ∧ e.oid = oidSKI)) ∧
+    (∀ e ∈ old.extensions, e.oid ≠ oidAKI → (pk.isSome = true → e.oid ≠ oidSKI) → e ∈ new.extensions) :=
+  only_these_differ current env i old new pk hw.1 (fun _ => renewOK_of_wellFormed current rfl old hw) h
+
+/-! ## TBS level: what may differ, serial numbers -/
+
+/-- **tbs_only_these_differ**: when the issuing CA is the same (same issuer name, same signature
+    algorithm) every component of the TBSCertificate other than serial number, validity and the
+    authority key identifier extension (on rekey also key and subject key identifier extension)
+    is the presented certificate's: version, signature algorithm, issuer, raw subject and all copied
+    fields, SubjectPublicKeyInfo, and the extension list as a list. The serial number is the one
+    the CAS drew, never the presented one's. -/
+theorem tbs_only_these_differ (v : Variant) (env : Env) (i : GateIn) (old new : Cert) (pk : Option Str)
+    (hc : Consistent old) (hs : pk = none → RenewOK v old)
+    (hv3 : old.version = 3) (hiss : env.issuerSubject = old.issuer) (halg : env.sigAlg = old.sigAlg)
+    (h : renew v env i old pk = .val (.issued new)) :
+    new.version = old.version ∧ new.sigAlg = old.sigAlg ∧ new.issuer = old.issuer ∧
+    new.f = old.f ∧ new.publicKey = pk.getD old.publicKey ∧ new.serial = env.serial ∧
+    new.notAfter - new.notBefore = old.notAfter - old.notBefore ∧
+    dropOid oidAKI (if pk.isSome then dropOid oidSKI new.extensions else new.extensions) =
+      dropOid oidAKI (if pk.isSome then dropOid oidSKI old.extensions else old.extensions) := by
+  obtain ⟨t1, t2, t3, t4, -, -, -⟩ := renew_tbs v env i old new pk h
+  obtain ⟨hf, hk, hvl, -⟩ := renew_shape v env i old new pk hc hs h
+  refine ⟨by rw [t1, hv3], by rw [t3, halg], by rw [t4, hiss], hf, hk, t2, hvl, ?_⟩
+  cases pk with
+  | none => exact (renew_fidelity v env i old new hc (hs rfl) h).2.2.2
+  | some k => exact (rekey_fidelity v env i old new k hc h).2.2.2.1
+
+/-- A history of renewals and rekeys, newest certificate first. Each step runs under its own gate
+    input and CA environment; `fresh` is the one assumption about the CAS: the serial it draws
+    (128 random bits in `x509util`) has not been used in this history. -/
+inductive Chain (v : Variant) : List Cert → Prop where
+  | start (c0 : Cert) : Chain v [c0]
+  | step {c c' : Cert} {cs : List Cert} (env : Env) (i : GateIn) (pk : Option Str) :
+      Chain v (c :: cs) → renew v env i c pk = .val (.issued c') →
+      env.serial ∉ (c :: cs).map (·.serial) → Chain v (c' :: c :: cs)
+
+/-- **serials_distinct**: along every history all serial numbers are pairwise distinct - the
+    renewal path never carries a serial number over from the presented certificate, the template
+    leaves it to the CAS. -/
+theorem serials_distinct (v : Variant) (l : List Cert) (h : Chain v l) : (l.map (·.serial)).Nodup := by
+  induction h with
+  | start c0 => simp
+  | step env i pk _ hstep hfresh ih =>
+    have := (renew_tbs v env i _ _ pk hstep).2.1
+    simp only [List.map_cons, List.nodup_cons] at ih ⊢
+    exact ⟨by rw [this]; simpa using hfresh, ih⟩
+
+/-! ## the proposed key check on rekey -/
+
+/-- **rekey_key_checked** (variants with the proposed check): a rekeyed certificate only ever
+    carries a key the sign flow would accept. -/
+theorem rekey_key_checked (v : Variant) (hv : v.rekeyKeyCheck = true) (env : Env) (i : GateIn)
+    (old new : Cert) (k : Str) (h : renew v env i old (some k) = .val (.issued new)) :
+    env.keyOK k = true ∧ new.publicKey = k := by
+  constructor
+  · unfold renew at h
+    by_cases hk : keyRefused v env (some k) = true
+    · rw [if_pos hk] at h; cases h
+    · simpa [keyRefused, hv] using hk
+  · have hs' := (renew_issued v env i old new (some k) h).2
+    unfold caSign at hs'
+    split at hs'
+    · simp at hs'
+    · simp only [Except.ok.injEq] at hs'
+      subst hs'; rfl
+
+/-! # Part F — the renewal flags through configuration, migration and restart -/
+
+/-- a flag keeps its effect through the migration when the provisioner has no claims object, sets
+    the flag itself, or the authority-level value is the built-in default -/
+def FlagsSurvive (g : GlobalFlags) (pc : Option RFlags) : Prop :=
+  pc = none ∨ ∃ c, pc = some c ∧
+    (c.disableRenewal.isSome = true ∨ g.disableRenewal = false) ∧
+    (c.allowAfterExpiry.isSome = true ∨ g.allowAfterExpiry = false)
+
+/-- **migration_preserves_flags** (variants with the proposed migration repair): whatever the
+    configuration, the effective renewal flags of a provisioner are the same in ca.json, after the
+    migration to the admin database, and after any restart. -/
+theorem migration_preserves_flags (v : Variant) (hv : v.migrationKeepsGlobals = true)
+    (g : GlobalFlags) (pc : Option RFlags) (ph : Phase) :
+    effectiveFlags g (claimsAt v g pc ph) = effectiveFlags g pc := by
+  cases pc with
+  | none => cases ph <;> rfl
+  | some c =>
+    obtain ⟨d, a⟩ := c
+    cases ph <;> cases d <;> cases a <;>
+      simp [claimsAt, migrateClaims, claimsToCertificates, claimsToLinkedca, effectiveFlags, hv]
+
+/-- the code as it stands: the same under `FlagsSurvive` -/
+theorem migration_preserves_flags_partial (v : Variant) (g : GlobalFlags) (pc : Option RFlags) (ph : Phase)
+    (h : FlagsSurvive g pc) : effectiveFlags g (claimsAt v g pc ph) = effectiveFlags g pc := by
+  rcases h with h | ⟨c, h, hd, ha⟩
+  · subst h; cases ph <;> rfl
+  · subst h
+    obtain ⟨d, a⟩ := c
+    cases hv : v.migrationKeepsGlobals <;> cases ph <;> cases d <;> cases a <;>
+      simp_all [claimsAt, migrateClaims, claimsToCertificates, claimsToLinkedca, effectiveFlags]
+
+/-- C09-MIG witness: renewal disabled at authority level, provisioner with a claims object that
+    leaves the flag unset -/
+def migWitnessG : GlobalFlags := ⟨true, false⟩
+def migWitnessC : Option RFlags := some ⟨none, none⟩
+
+/-- **migration_preserves_flags_refuted** (/repo HEAD, finding C09-MIG): the full-strength statement is
+    false - after the migration the provisioner's renewal is enabled although the configuration
+    disables it, and a certificate of it is renewed. -/
+theorem migration_preserves_flags_refuted :
+    ¬ ∀ (g : GlobalFlags) (pc : Option RFlags) (ph : Phase),
+        effectiveFlags g (claimsAt current g pc ph) = effectiveFlags g pc := by
+  intro h
+  have := h migWitnessG migWitnessC .migrated
+  revert this; decide
+
+/-- a restart changes nothing any more: the database is a fixed point of the conversion -/
+theorem migration_idempotent (v : Variant) (g : GlobalFlags) (pc : Option RFlags) :
+    claimsAt v g pc .restarted = claimsAt v g pc .migrated := by
+  cases pc with
+  | none => rfl
+  | some c =>
+    obtain ⟨d, a⟩ := c
+    cases hv : v.migrationKeepsGlobals <;> cases d <;> cases a <;>
+      simp [claimsAt, migrateClaims, claimsToCertificates, claimsToLinkedca, hv]
+
+/-- **migration_gate**: with flags that survive (always, with the repair) a certificate that
+    carries the provisioner extension gets the same gate decision in every phase - in particular
+    "renewal disabled" stays refused after the migration and after restarts, although the
+    database record no longer resolves (the provisioner got a new id). -/
+theorem migration_gate (v : Variant) (g : GlobalFlags) (pc : Option RFlags) (ph : Phase) (expired : Bool)
+    (h : v.migrationKeepsGlobals = true ∨ FlagsSurvive g pc) :
+    decide v (phaseGate v g pc ph expired) = decide v (phaseGate v g pc .config expired) := by
+  have hf : effectiveFlags g (claimsAt v g pc ph) = effectiveFlags g pc := by
+    rcases h with h | h
+    · exact migration_preserves_flags v h g pc ph
+    · exact migration_preserves_flags_partial v g pc ph h
+  have h0 : effectiveFlags g (claimsAt v g pc .config) = effectiveFlags g pc := rfl
+  unfold phaseGate
+  rw [hf, h0]
+  generalize effectiveFlags g pc = fl
+  obtain ⟨d, a⟩ := fl
+  cases ph <;> cases d <;> cases a <;> cases expired <;>
+    simp [decide, authorizeRenew, selectProvisioner, loadByCertificate, loadFromExtension,
+      collectionLoadByCertificate, callAuthorizeRenew, provAuthorizeRenew, defaultAuthorizeRenew]
+
+example : FlagsSurvive ⟨false, false⟩ (some ⟨some true, none⟩) := .inr ⟨_, rfl, .inl rfl, .inr rfl⟩
+example : decide current (phaseGate current migWitnessG migWitnessC .config false) = .val (.refuse .renewDisabled) ∧
+    decide current (phaseGate current migWitnessG migWitnessC .migrated false) = .val .allow ∧
+    decide withMigrationRepair (phaseGate withMigrationRepair migWitnessG migWitnessC .migrated false) =
+      .val (.refuse .renewDisabled) := by decide
+
+/-! # Part G — the source-derived tables and the model -/
+
+/-- the template literal copies exactly the fields the model's `Fields` stands for -/
+theorem template_fields_are_the_models :
+    renewTemplateFields.length = fieldsGoNames.length ∧
+    (∀ n ∈ fieldsGoNames, n ∈ renewTemplateFields) ∧ (∀ n ∈ renewTemplateFields, n ∈ fieldsGoNames) := by
+  decide
+
+/-- … and nothing of the certificate's identity: no serial number, validity, issuer, authority key
+    identifier, signature or raw encoding is in the literal, and the only fields assigned later are
+    the public key, the subject key identifier (to nil / empty) and `ExtraExtensions`. This is what
+    `renewTemplate` (`serial := none`, key chosen, `subjectKeyId` none / empty) models. -/
+theorem template_carries_no_identity :
+    (∀ n ∈ identityFields, n ∉ renewTemplateFields) ∧
+    (∀ n ∈ renewTemplateAssignedFields, n ∈ ["PublicKey", "SubjectKeyId", "ExtraExtensions"]) ∧
+    (∀ n ∈ identityFields, n ∉ renewTemplateAssignedFields) := by
+  decide
+
+/-- the copy loop drops exactly the table's OIDs: the first always, the second on rekey -/
+theorem copyExtensions_spec (r : Bool) (es : List Ext) (e : Ext) :
+    e ∈ copyExtensions r es ↔
+      e ∈ es ∧ e.oid ≠ skippedExtensionOids[0]! ∧ ¬ (e.oid = skippedExtensionOids[1]! ∧ r = true) := by
+  cases r <;> simp [copyExtensions, skippedExtensionOids]
+
+/-- every generated extension has an OID of the table derived from crypto/x509, and they come in
+    the table's order -/
+theorem generated_follows_go_order (enc : Enc) (t : Tpl) (aki ski : Str) :
+    ((generated enc t aki ski).map (·.oid)).Sublist generatedOrder := by
+  have hs : ∀ (c : Bool) (e : Ext), ((slot t.extra c e).map (·.oid)).Sublist [e.oid] := by
+    intro c e
+    unfold slot
+    split
+    · exact List.Sublist.refl _
+    · simp
+  unfold generated generatedOrder
+  simp only [List.map_append]
+  have := List.Sublist.append (hs (t.f.keyUsage != 0) ⟨oidKU, true, enc.ku t.f⟩)
+    (List.Sublist.append (hs (!t.f.extKeyUsage.isEmpty || !t.f.unknownExtKeyUsage.isEmpty) ⟨oidEKU, false, enc.eku t.f⟩)
+    (List.Sublist.append (hs t.f.bcValid ⟨oidBC, true, enc.bc t.f⟩)
+    (List.Sublist.append (hs (!ski.isEmpty) ⟨oidSKI, false, enc.ski ski⟩)
+    (List.Sublist.append (hs (!aki.isEmpty) ⟨oidAKI, false, enc.aki aki⟩)
+    (List.Sublist.append (hs (!t.f.ocspServer.isEmpty || !t.f.issuingURL.isEmpty) ⟨oidAIA, false, enc.aia t.f⟩)
+    (List.Sublist.append (hs (!t.f.dnsNames.isEmpty || !t.f.emailAddresses.isEmpty || !t.f.ipAddresses.isEmpty || !t.f.uris.isEmpty)
+        ⟨oidSAN, subjectIsEmpty t.f, enc.san t.f⟩)
+    (List.Sublist.append (hs (!t.f.policies.isEmpty) ⟨oidPol, false, enc.pol t.f⟩)
+    (List.Sublist.append (hs (hasNameConstraints t.f) ⟨oidNC, t.f.ncCritical, enc.nc t.f⟩)
+      (hs (!t.f.crlDP.isEmpty) ⟨oidCRLDP, false, enc.crl t.f⟩)))))))))
+  simpa [List.append_assoc] using this
+
+/-- the call order of `authorizeRenew` in the source is the order of the model's `authorizeRenew`:
+    revocation first, then the two lookups and the record test, then the two type tests, then the
+    provisioner's own answer -/
+theorem authorizeRenew_call_order :
+    authorizeRenewCalls.head? = some "IsRevoked" ∧ authorizeRenewCalls.getLast? = some "AuthorizeRenew" ∧
+    authorizeRenewCalls.idxOf "certificateRecordsProvisioner" < authorizeRenewCalls.idxOf "assert:provisioner.Uninitialized" ∧
+    authorizeRenewCalls.idxOf "assert:*wrappedProvisioner" < authorizeRenewCalls.idxOf "assert:provisioner.Uninitialized" := by
+  decide
+
+/-- **revocation_first**: once the revocation lookup says "revoked" or fails, nothing else is even
+    looked at: the decision does not depend on any other input. -/
+theorem revocation_first (v : Variant) (i j : GateIn) (h : i.revoked = j.revoked) (hr : i.revoked ≠ .no) :
+    decide v i = decide v j := by
+  unfold decide authorizeRenew
+  rw [← h]
+  cases hh : i.revoked with
+  | no => exact absurd hh hr
+  | yes => rfl
+  | err => rfl
+
+/-- `DefaultAuthorizeRenew` tests in the table's order: the disabled claim dominates everything, a
+    not-yet-valid certificate is refused before expiry is looked at -/
+theorem default_check_order (a : Bool) (i : GateIn) :
+    defaultAuthorizeRenew true a i = .refuse .renewDisabled ∧
+    (i.notYetValid = true → defaultAuthorizeRenew false a i = .refuse .notYetValid) ∧
+    defaultAuthorizeRenewChecks = ["IsDisableRenewal", "Before", "After", "AllowRenewalAfterExpiry"] := by
+  refine ⟨by simp [defaultAuthorizeRenew], ?_, rfl⟩
+  intro h; simp [defaultAuthorizeRenew, h]
+
+/-- the two tables of provisioner types are disjoint -/
+theorem renew_types_disjoint : ∀ t ∈ ctlRenewTypes, t ∉ baseRenewTypes := by decide
+
 /-! # Part E — the hypotheses are satisfiable, and what happens outside them -/
 
 section Examples
@@ -717,11 +1177,12 @@ section Examples
 def encX : Enc :=
   { ku := fun _ => [1], eku := fun _ => [2], bc := fun _ => [3], ski := fun k => 4 :: k,
     aki := fun k => 5 :: k, aia := fun _ => [6], san := fun _ => [7], pol := fun _ => [8],
-    nc := fun _ => [9], crl := fun _ => [10] }
+    nc := fun _ => [9], crl := fun _ => [10], skiDec := fun v => v.drop 1 }
 
 def envX : Env :=
   { enc := encX, now := 1000, backdate := 60, serial := 77, issuerSubject := [0x30, 0x00],
-    parentSKI := [0xAA], skiOf := fun k => 0xBB :: k }
+    parentSKI := [0xAA], skiOf := fun k => 0xBB :: k, sha1Of := fun k => 0xCC :: k,
+    sigAlg := [1, 2, 840, 10045, 4, 3, 2], keyOK := fun k => k.length ≥ 2 }
 
 def fieldsX : Fields :=
   { rawSubject := [0x30, 0x03, 1, 2, 3], keyUsage := 5, extKeyUsage := [1, 2], unknownExtKeyUsage := [],
@@ -733,7 +1194,8 @@ def fieldsX : Fields :=
 
 /-- issuance order of a typical leaf: KU, EKU, BC, SKI, AKI, SAN, provisioner, unknown critical -/
 def certX : Cert :=
-  { f := fieldsX, publicKey := [1, 1], serial := 5, notBefore := 0, notAfter := 86400, issuer := [],
+  { f := fieldsX, version := 3, sigAlg := [1, 2, 840, 10045, 4, 3, 2], subjectKeyId := [0xBB, 1, 1],
+    publicKey := [1, 1], serial := 5, notBefore := 0, notAfter := 86400, issuer := [0x30, 0x00],
     extensions := [⟨oidKU, true, [1]⟩, ⟨oidEKU, false, [2]⟩, ⟨oidBC, true, [3]⟩, ⟨oidSKI, false, [4, 0xBB, 1, 1]⟩,
       ⟨oidAKI, false, [5, 0x99]⟩, ⟨oidSAN, false, [7]⟩, ⟨oidStepProvisioner, false, [42]⟩,
       ⟨[1, 2, 3, 4], true, [43]⟩] }
@@ -773,13 +1235,40 @@ example : (⟨.no, .gone, .gone, false, false⟩ : GateIn).revoked = .no ∧
     foundProv ⟨.no, .gone, .gone, false, false⟩ = none ∧ ¬ recordsNone ⟨.no, .gone, .gone, false, false⟩ := by
   refine ⟨rfl, rfl, ?_⟩; simp [recordsNone]
 
-/-- A certificate *without* a subject key identifier extension (outside the hypothesis of
-    `renew_fidelity`): the renewal gains one. -/
-def certNoSKI : Cert := { certX with extensions := dropOid oidSKI certX.extensions }
+/-- A well-formed leaf *without* subject key identifier (issued from a template with
+    `"subjectKeyId": ""`). -/
+def certNoSKI : Cert :=
+  { certX with extensions := dropOid oidSKI certX.extensions, subjectKeyId := [] }
 
+example : WellFormed certX := ⟨by unfold Consistent; decide, fun h => by revert h; decide, fun _ => by decide⟩
+example : WellFormed certNoSKI := ⟨by unfold Consistent; decide, fun _ => rfl, fun h => by revert h; decide⟩
+
+/-- on /repo HEAD it is renewed without gaining one: the list clause holds -/
 example : ∃ c, renew current envX okGate certNoSKI none = .val (.issued c) ∧
-    dropOid oidAKI c.extensions ≠ dropOid oidAKI certNoSKI.extensions ∧
-    extOf oidSKI c.extensions = some ⟨oidSKI, false, [4, 0xBB, 1, 1]⟩ := ⟨_, rfl, by decide, by decide⟩
+    dropOid oidAKI c.extensions = dropOid oidAKI certNoSKI.extensions ∧
+    extOf oidSKI c.extensions = none := ⟨_, rfl, by decide, by decide⟩
+
+/-- … and a rekey still gives it the identifier of the new key -/
+example : ∃ c, renew current envX okGate certNoSKI (some [2, 2]) = .val (.issued c) ∧
+    extOf oidSKI c.extensions = some ⟨oidSKI, false, [4, 0xBB, 2, 2]⟩ := ⟨_, rfl, by decide⟩
+
+end Examples
+
+/-- **renew_gained_ski** (historic, tree before ce0e905, finding C09-SKI): the full-strength
+    fidelity statement for every well-formed certificate was false - the leaf without subject
+    key identifier came back with one. -/
+theorem renew_gained_ski :
+    ¬ ∀ (env : Env) (i : GateIn) (old new : Cert), WellFormed old →
+        renew beforeSKIFix env i old none = .val (.issued new) →
+        dropOid oidAKI new.extensions = dropOid oidAKI old.extensions := by
+  intro h
+  have hw : WellFormed certNoSKI :=
+    ⟨by unfold Consistent; decide, fun _ => rfl, fun h => by revert h; decide⟩
+  have := h envX okGate certNoSKI _ hw rfl
+  revert this
+  decide
+
+section Examples
 
 /-- The no-op provisioner performs no validity check of its own (on the mutual-TLS entry the
     handshake has done it; see `gates_api`). -/
